@@ -2,6 +2,7 @@ import SdxProofs.TreeLemmas
 import SdxProofs.TreeInv
 import SdxProofs.PushDown
 import SdxProofs.ForestLemmas
+import Mathlib.Data.List.InsertIdx
 import Props.C02
 import Props.C17
 import Mathlib.Data.Rat.Floor
@@ -126,11 +127,11 @@ whenever the build finishes (no `RecursionError`), the tree satisfies the invari
 holds every input row exactly once. -/
 theorem C18_tree_invariant (E : Env α) (c : FCtx α) (rl : Int) (comb : List Nat) (seed : UInt64)
     (subs : List (Option (Node α))) (snapped : List (Ival α)) (hlen : snapped.length = comb.length)
-    (hn : 0 < c.data.size) (t : Node α)
+    (hsub : SubsOK comb snapped subs) (hn : 0 < c.data.size) (t : Node α)
     (h : buildRows E c rl (mkLeaf E c comb [] seed subs snapped 0) = some t) :
     TInv E c snapped t ∧ t.allRows.Perm (List.range c.data.size) ∧ t.data.snapped = snapped ∧ t.data.comb = comb := by
   have h0 : TInv E c snapped (mkLeaf E c comb [] seed subs snapped 0) :=
-    mkLeaf_ok E c snapped comb [] seed subs snapped 0 hlen (fun j _ hv => ⟨hv.1, hv.2, fun _ => rfl⟩)
+    mkLeaf_ok E c snapped comb [] seed subs snapped 0 hlen (fun j _ hv => ⟨hv.1, hv.2, fun _ => rfl⟩) hsub
   unfold buildRows at h
   have hm : (List.range (c.data.size - 1)).foldlM (fun t i => addRow E c rl 4000 0 t (i + 1)) (mkLeaf E c comb [] seed subs snapped 0)
       = ((List.range (c.data.size - 1)).map (· + 1)).foldlM (fun t r => addRow E c rl 4000 0 t r) (mkLeaf E c comb [] seed subs snapped 0) := by
@@ -147,10 +148,10 @@ theorem C18_tree_invariant (E : Env α) (c : FCtx α) (rl : Int) (comb : List Na
 permutation of `0 .. n-1`. -/
 theorem C18_rows_partitioned (E : Env α) (c : FCtx α) (rl : Int) (comb : List Nat) (seed : UInt64)
     (subs : List (Option (Node α))) (snapped : List (Ival α)) (hlen : snapped.length = comb.length)
-    (hn : 0 < c.data.size) (t : Node α)
+    (hsub : SubsOK comb snapped subs) (hn : 0 < c.data.size) (t : Node α)
     (h : buildRows E c rl (mkLeaf E c comb [] seed subs snapped 0) = some t) :
     t.allRows.Nodup ∧ ∀ r, r ∈ t.allRows ↔ r < c.data.size := by
-  obtain ⟨_, hp, _⟩ := C18_tree_invariant E c rl comb seed subs snapped hlen hn t h
+  obtain ⟨_, hp, _⟩ := C18_tree_invariant E c rl comb seed subs snapped hlen hsub hn t h
   exact ⟨hp.nodup_iff.mpr List.nodup_range, fun r => by rw [hp.mem_iff, List.mem_range]⟩
 
 /-- T18.b (global)  in a tree satisfying the invariant, every child of every branch carries its parent's columns and
@@ -303,7 +304,7 @@ theorem C18_tree1_invariant (E : Env α) (c : FCtx α) (rl : Int) (j : Nat) (see
       ∀ r ∈ out, r ∈ t'.allRows ∧ Outside (rootIv t') (c.value r j) := by
   simp only [Option.bind_eq_some_iff] at h
   obtain ⟨t, hb, hp⟩ := h
-  obtain ⟨hT, hperm, hsn, hcomb⟩ := C18_tree_invariant E c rl [j] seed [] [iv] rfl hn t hb
+  obtain ⟨hT, hperm, hsn, hcomb⟩ := C18_tree_invariant E c rl [j] seed [] [iv] rfl subsOK_nil hn t hb
   have hroot : rootIv t = iv := by unfold rootIv; rw [hsn]; rfl
   obtain ⟨out, hTO, hp', hc', hnest, _, hout⟩ := pushDown_inv E c [iv] 4000 t t' hT (by rw [hcomb]; rfl)
     (hperm.nodup_iff.mpr List.nodup_range) (by rw [hroot]; exact hiv) hp
@@ -339,7 +340,7 @@ theorem C18_forest_trees1 (E : Env α) (inp : ForestIn α) (F : Forest α) (h : 
       (F.trees1[j]).allRows.Perm (List.range F.ctx.data.size) ∧ (F.trees1[j]).data.comb = [j] ∧
       NestedIn (rootIv (F.trees1[j])) (F.rootSnapped0.getD j default) ∧
       ∀ r ∈ out, r ∈ (F.trees1[j]).allRows ∧ Outside (rootIv (F.trees1[j])) (F.ctx.value r j) := by
-  obtain ⟨hl1, hl0, hprop, hsize, ht⟩ := forest_init_trees1 E inp F h
+  obtain ⟨hl1, hl0, hprop, hsize, _, ht⟩ := forest_init_trees1 E inp F h
   have hjs : j < F.rootSnapped0.length := by rw [hl0, ← hl1]; exact hj
   have hiv : (F.rootSnapped0.getD j default).lo ≤ (F.rootSnapped0.getD j default).hi := by
     have : F.rootSnapped0.getD j default = F.rootSnapped0[j] := by simp [List.getD_eq_getElem?_getD, hjs]
@@ -348,28 +349,116 @@ theorem C18_forest_trees1 (E : Env α) (inp : ForestIn α) (F : Forest α) (h : 
   simp only [tree1] at this
   exact C18_tree1_invariant E F.ctx _ j _ _ hiv (by rw [hsize]; exact hn) _ this
 
-/-- T18  whenever `Forest.get_tree` returns a tree for a combination of two or more columns, that tree holds every row
-exactly once and satisfies the invariant relative to the (pushed-down) ranges of its columns. -/
-theorem C18_forest_tree (E : Env α) (F : Forest α) (fuel : Nat) (comb : List Nat) (t : Node α) (hk : 2 ≤ comb.length)
-    (hn : 0 < F.ctx.data.size) (h : F.tree? E fuel comb = some t) :
-    TInv E F.ctx (comb.map fun j => F.snapped.getD j default) t ∧ t.allRows.Perm (List.range F.ctx.data.size) ∧
-      t.data.comb = comb := by
-  cases fuel with
-  | zero => simp [Forest.tree?] at h
-  | succ fuel =>
-    rw [Forest.tree?] at h
-    · split at h
-      · cases h
-      · obtain ⟨hT, hp, _, hc⟩ := C18_tree_invariant E F.ctx 0 comb _ _ _ (by simp) hn t h
-        exact ⟨hT, hp, hc⟩
-    · intro j hj; rw [hj] at hk; simp at hk
+/-- what a tree handed out by the forest looks like from the outside: its columns, its root ranges (the pushed-down
+column ranges) and its shape (children = selected halves, sub-nodes = projections, recursively) -/
+def GoodTree (F : Forest α) (comb : List Nat) (t : Node α) : Prop :=
+  t.data.comb = comb ∧ t.data.snapped = comb.map (fun j => F.snapped.getD j default) ∧ Shape t
+
+theorem range_map_getD (comb : List Nat) : (List.range comb.length).map (fun i => comb.getD i 0) = comb := by
+  apply List.ext_getElem
+  · simp
+  · intro i h1 h2
+    simp only [List.length_map, List.length_range] at h1
+    simp [List.getD_eq_getElem?_getD, h1]
+
+/-- T18  whenever `Forest.get_tree` returns a tree — for one column or a combination of several — that tree has the
+requested columns, starts from the pushed-down column ranges, is well-shaped including its sub-nodes (the sub-node
+handed to every node is the node of the lower-dimensional tree with the same ranges minus one dimension); and for two
+or more columns it holds every row exactly once and satisfies the invariant. -/
+theorem C18_forest_tree (E : Env α) (inp : ForestIn α) (F : Forest α) (hinit : Forest.init E inp = .ok F)
+    (hn : 0 < inp.raw.size) :
+    ∀ (fuel : Nat) (comb : List Nat) (t : Node α), 1 ≤ comb.length → F.tree? E fuel comb = some t →
+      GoodTree F comb t ∧
+      (2 ≤ comb.length → TInv E F.ctx (comb.map fun j => F.snapped.getD j default) t ∧
+        t.allRows.Perm (List.range F.ctx.data.size)) := by
+  obtain ⟨hl1, hl0, hprop, hsize, hsn, ht⟩ := forest_init_trees1 E inp F hinit
+  intro fuel
+  induction fuel with
+  | zero => intro comb t _ h; simp [Forest.tree?] at h
+  | succ fuel IH =>
+    intro comb t hk h
+    by_cases h1 : ∃ j, comb = [j]
+    · obtain ⟨j, rfl⟩ := h1
+      rw [Forest.tree?] at h
+      obtain ⟨hj, rfl⟩ := List.getElem?_eq_some_iff.mp h
+      obtain ⟨out, hTO, _, hc, _, _⟩ := C18_forest_trees1 E inp F hinit hn j hj
+      have hsh := hTO.shape
+      have hlen : (F.trees1[j]).data.snapped.length = 1 := by rw [hsh.lenS, hc]; rfl
+      refine ⟨⟨hc, ?_, hsh⟩, fun h2 => by simp at h2⟩
+      obtain ⟨iv, hiv⟩ := List.length_eq_one_iff.mp hlen
+      rw [hiv, hsn]
+      simp [List.getD_eq_getElem?_getD, hj, hiv]
+    · have hk2 : 2 ≤ comb.length := by
+        match comb, hk, h1 with
+        | [j], _, h1 => exact absurd ⟨j, rfl⟩ h1
+        | _ :: _ :: _, _, _ => simp
+      rw [Forest.tree?] at h
+      · split at h
+        · cases h
+        · rename_i subTrees hm
+          have hall := mapM_option_some _ _ _ hm
+          rw [genCombinations_pred comb.length hk2] at hall
+          have hlenS : subTrees.length = comb.length := by rw [← hall.length_eq]; simp
+          -- the sub-trees are the right projections
+          have hsub : SubsOK comb (comb.map fun j => F.snapped.getD j default) (subTrees.map some) := by
+            have each : ∀ (i : Nat) (s : Node α), (subTrees.map some)[i]? = some (some s) →
+                i < comb.length ∧ GoodTree F (comb.eraseIdx (comb.length - 1 - i)) s := by
+              intro i s hi
+              rw [List.getElem?_map] at hi
+              cases hs : subTrees[i]? with
+              | none => rw [hs] at hi; simp at hi
+              | some s' =>
+                rw [hs] at hi
+                simp only [Option.map_some, Option.some.injEq] at hi
+                subst hi
+                obtain ⟨hil, hsi⟩ := List.getElem?_eq_some_iff.mp hs
+                have hi' : i < comb.length := by rw [← hlenS]; exact hil
+                have hil' : i < ((List.range comb.length).map
+                    (fun i => (List.range comb.length).eraseIdx (comb.length - 1 - i))).length := by simpa using hi'
+                have := List.forall₂_iff_get.mp hall |>.2 i hil' hil
+                simp only [List.get_eq_getElem, List.getElem_map, List.getElem_range] at this
+                rw [hsi] at this
+                have hcomb : ((List.range comb.length).eraseIdx (comb.length - 1 - i)).map (fun i => comb.getD i 0)
+                    = comb.eraseIdx (comb.length - 1 - i) := by
+                  rw [← List.eraseIdx_map, range_map_getD]
+                rw [hcomb] at this
+                have hl : 1 ≤ (comb.eraseIdx (comb.length - 1 - i)).length := by
+                  rw [List.length_eraseIdx]; split_ifs <;> omega
+                exact ⟨hi', (IH _ _ hl this).1⟩
+            constructor
+            · intro i s hi
+              obtain ⟨hi', hc, hs, _⟩ := each i s hi
+              refine ⟨hi', hc, ?_⟩
+              rw [hs, List.eraseIdx_map]
+            · intro i s hi
+              exact (each i s hi).2.2.2
+          obtain ⟨hT, hp, hs', hc⟩ := C18_tree_invariant E F.ctx 0 comb _ _ _ (by simp) hsub (by rw [hsize]; exact hn) t h
+          exact ⟨⟨hc, hs', hT.shape⟩, fun _ => ⟨hT, hp⟩⟩
+      · intro j hj; exact h1 ⟨j, hj⟩
+
+/-- T18.f (global, projections)  in a tree satisfying the invariant, the `k`-th sub-node of every node is a node of a
+lower-dimensional tree over the node's columns without column `dims-1-k`, whose ranges are the node's ranges in the
+remaining columns — i.e. it *is* the node's projection; so "no stub" (`C18_not_stub_projection`) means a projection of
+this very range passed its threshold. -/
+theorem C18_subnodes_are_projections (E : Env α) (c : FCtx α) (root : List (Ival α)) (t n : Node α) (hT : TInv E c root t)
+    (hs : Node.Sub n t) (k : Nat) (s : Node α) (hk : n.subnodes[k]? = some (some s)) :
+    k < n.data.comb.length ∧ s.data.comb = n.data.comb.eraseIdx (n.data.comb.length - 1 - k) ∧
+    s.data.snapped = n.data.snapped.eraseIdx (n.data.comb.length - 1 - k) ∧ Shape s := by
+  have := TInv.sub hs hT
+  cases this with
+  | leaf _ d subs rows hN =>
+    obtain ⟨h1, h2, h3⟩ := hN.subsOK.1 k s hk
+    exact ⟨h1, h2, h3, hN.subsOK.2 k s hk⟩
+  | branch _ d subs ch hN hB hC =>
+    obtain ⟨h1, h2, h3⟩ := hN.subsOK.1 k s hk
+    exact ⟨h1, h2, h3, hN.subsOK.2 k s hk⟩
 
 /-- Non-vacuity of the invariant's premises: the root leaf `Forest` starts from satisfies `TInv`, and every row may be
 handed to a root (so `C18_add_row_invariant` applies to the first insertion, and by its conclusion to every later one). -/
 example (E : Env α) (c : FCtx α) (comb : List Nat) (seed : UInt64) (snapped : List (Ival α)) (hlen : snapped.length = comb.length) :
     TInv E c snapped (mkLeaf E c comb [] seed [] snapped 0) ∧
     ∀ row, RowInside c snapped (mkLeaf E c comb [] seed [] snapped 0).data row :=
-  ⟨mkLeaf_ok E c snapped comb [] seed [] snapped 0 hlen (fun j _ hv => ⟨hv.1, hv.2, fun _ => rfl⟩),
+  ⟨mkLeaf_ok E c snapped comb [] seed [] snapped 0 hlen (fun j _ hv => ⟨hv.1, hv.2, fun _ => rfl⟩) subsOK_nil,
    fun row => rowInside_root c _ row⟩
 
 /-- Non-vacuity: the range `[0,4)` over ℚ is proper and `3` lies in it, routed to the upper half `[2,4)`. -/
